@@ -1,4 +1,4 @@
-import BumpVerif.Proofs.Live
+import BumpVerif.Proofs.Rewind
 /-!
 # C16 / C15 — arena part
 
@@ -38,9 +38,9 @@ theorem reset_and_drop_touch_no_value {E} (s : St) (h : ArenaWF E s.a) :
 theorem usable_after_panic {E sz al p} (f : Bool) (s : St) (live : List Block) (hE : EnvOK E)
     (inv : LiveInv E ⟨s, live⟩) (hA : IsPow2 al) (hlay : sz + al ≤ 2 ^ 63)
     (hok : (allocMaybe E f sz al s).2 = .ok p) (ops : List Op)
-    (hrun : RunOK E ops ⟨(allocMaybe E f sz al s).1, live ++ [⟨p, sz⟩]⟩) :
+    (hrun : RunOKFull E ops ⟨(allocMaybe E f sz al s).1, live ++ [⟨p, sz⟩]⟩) :
     LiveInv E (sysRun E ops ⟨(allocMaybe E f sz al s).1, live ++ [⟨p, sz⟩]⟩).1 :=
-  (sysRun_live hE ops _ (panic_after_reservation_keeps_invariant f s live hE inv hA hlay hok).1 hrun).1
+  (sysRun_live_full hE ops _ (panic_after_reservation_keeps_invariant f s live hE inv hA hlay hok).1 hrun).1
 
 end Bump.C16A
 
